@@ -3,6 +3,8 @@ package gabi
 import (
 	"fmt"
 
+	"github.com/privacybydesign/gabi/internal/common"
+
 	"github.com/privacybydesign/gabi/big"
 	"github.com/privacybydesign/gabi/gabikeys"
 )
@@ -120,7 +122,7 @@ func vpC06_O2() {
 	vpAssume(r.issue() == nil)
 	m := r.sigMsg
 	vpAssume(m.Proof.C.Sign() != 0)
-	switch vpChoose("holderdev", 9) {
+	switch vpChoose("holderdev", 11) {
 	case 0:
 		m.Proof.C = vpAddTo(m.Proof.C, d)
 	case 1:
@@ -140,6 +142,23 @@ func vpC06_O2() {
 	case 6:
 		vpAssume(len(r.blind) > 0)
 		delete(m.MIssuer, r.blind[0]+1)
+	case 9: // a blind share shifted by d, compensated through the (normally absent) KeyshareP field
+		vpAssume(len(r.blind) > 0 && d.Sign() > 0)
+		i := r.blind[0] + 1
+		m.MIssuer[i] = vpAddTo(m.MIssuer[i], d)
+		inv, ok := common.ModInverse(r.pk.R[i], r.pk.N)
+		vpAssume(ok)
+		m.Signature.KeyshareP = new(big.Int).Exp(inv, d, r.pk.N)
+	case 10: // an ordinary attribute shifted the same way (the holder's own list differs from what was signed)
+		vpAssume(len(r.blind) < nattr && d.Sign() > 0)
+		i := 0
+		for r.isBlind[i] {
+			i++
+		}
+		r.attrs[i] = vpAddTo(r.attrs[i], d)
+		inv, ok := common.ModInverse(r.pk.R[i+1], r.pk.N)
+		vpAssume(ok)
+		m.Signature.KeyshareP = new(big.Int).Exp(inv, d, r.pk.N)
 	case 7: // the holder's own nonce differs from the one the issuer used
 		r.builder.nonce2 = vpAddTo(r.builder.nonce2, d)
 	case 8: // the holder's context differs
